@@ -28,6 +28,24 @@ HEADER = ['From Coq Require Import List ZArith Bool Arith.', 'Import ListNotatio
           'Open Scope Z_scope.', 'Set Printing Width 100000.', 'Set Printing Depth 100000.']
 
 
+SPEC_KEYS = ('id', 'nodes', 'blocks', 'want', 'scale', 'offset', 'move', 'moved_blocks', 'dtype', 'prelude',
+             'mid_prelude')
+
+
+def run_impl(ctx, cases, tag='impl'):
+    """femio in a child process (harness/c12_impl.py = c10_impl's case runner + queries on the same object
+    before the query under test)"""
+    spec = {'work': str(ctx.scratch / 'work'), 'out': str(ctx.scratch / f'{tag}_out.json'), 'probes': [],
+            'cases': [{k: c[k] for k in SPEC_KEYS if k in c} for c in cases]}
+    sp = ctx.scratch / f'{tag}_spec.json'
+    sp.write_text(json.dumps(spec))
+    r = subprocess.run([lib.PY, str(lib.VERIF / 'harness' / 'c12_impl.py'), str(sp)],
+                       text=True, capture_output=True, env=lib.impl_env(), timeout=2400)
+    if r.returncode != 0:
+        raise RuntimeError('impl runner failed: ' + r.stderr[-2000:])
+    return {x['id']: x for x in json.loads(Path(spec['out']).read_text())}
+
+
 def case_checks(case, r):
     i = case['id']
     defs = [f'Definition m{i} : mesh := {c10.mesh_literal(case)}.',
@@ -256,6 +274,21 @@ def oracle(case, r):
     return bad[:6]
 
 
+# other public queries on the same object BEFORE the query under test (checklist 5, option-varying preludes):
+# everything that internally asks for facets / surface / normals / incidence / metrics, with the option values
+# calculate_normal_incidence_matrix does not use as well as the ones it uses (keys of c12_impl.QUERIES)
+PRELUDES = ['to_surface', 'to_surface_keep_nodes', 'extract_surface', 'extract_surface_fistr',
+            'surface_normals_mean', 'surface_normals_effective', 'all_element_normals',
+            'to_facets_keep_duplicates', 'to_facets_unique', 'to_facets_default', 'to_facets_dict',
+            'extract_facets_default', 'extract_facets_keep_duplicates', 'extract_facets_unique',
+            'extract_facets_stack', 'extract_facets_falsy_flag', 'incidence_matrix', 'incidence_matrix_order1',
+            'adjacency_element', 'adjacency_node', 'adjacency_nodal_mode', 'element_degree',
+            'relative_incidence_min1', 'relative_incidence_min3', 'relative_incidence_self',
+            'volumes_default', 'volumes_linear', 'volumes_abs', 'volumes_no_update', 'metrics', 'metrics_abs',
+            'areas_on_solid', 'element_normals_on_solid', 'edge_lengths', 'nodal2elemental_sum',
+            'nodal2elemental_mean', 'first_order_nodes', 'normal_incidence_itself',
+            'facet_normals_of_duplicated_facets', 'surface_areas']
+
 SCALES = [(1, 1), (1, 2 ** 11), (1, 2 ** 13), (1, 2 ** 15), (1, 1000), (1, 10000), (128, 1), (1000, 1)]
 # in-place moves through the API whose exact effect on integer coordinates is known
 API_MOVES = [
@@ -367,6 +400,34 @@ def gen_cases(ctx, widened=False):
             c['moved_nodes'] = mv
         c['meta'] = dict(c['meta'], same_object=c['move']['kind'])
         cases.append(c)
+    # prelude stream: ONE object, other public queries first (singly: every query of PRELUDES in every run,
+    # on a tet and a hex mesh alternately; ordered pairs: a rotating subset in quick, many in thorough), then
+    # the query under test; the result must be that of a fresh object = the model.  In same-object histories
+    # the queries are also put between the first and the second call (mid_prelude).
+    def small(k):
+        while True:
+            m = c10_gen.gen_mesh(rng, kind=kinds[k % 2], dims=rng.choice([(2, 1, 1), (2, 2, 1), (2, 2, 2)]),
+                                 warp=rng.choice([None, 'frustum']), max_elems=12)
+            if sum(len(v) for v in m['blocks'].values()) >= 2:
+                return m
+    plist = []
+    for k, q in enumerate(PRELUDES):
+        plist.append(([q], None))
+    n_pairs = 24 if ctx.tier == 'quick' else 400
+    for k in range(n_pairs):
+        plist.append(([rng.choice(PRELUDES), rng.choice(PRELUDES)], None))
+    for k in range(12 if ctx.tier == 'quick' else 120):
+        plist.append((rng.sample(PRELUDES, rng.choice([0, 1])), rng.sample(PRELUDES, rng.choice([1, 2]))))
+    for k, (pre, mid) in enumerate(plist):
+        m = small(k + (k // len(PRELUDES)))
+        c = {'nodes': m['nodes'], 'blocks': m['blocks'], 'valid': True, 'prelude': pre,
+             'meta': dict(m['meta'], prelude='+'.join(pre) or '-')}
+        if mid:
+            c['mid_prelude'] = mid
+            c['move'] = {'kind': 'repeat'}
+            c['moved_nodes'] = [[i, list(p)] for i, p in m['nodes']]
+            c['meta'] = dict(c['meta'], same_object='repeat', mid_prelude='+'.join(mid))
+        cases.append(c)
     # size stream (checklist 4): meshes far larger than what is evaluated inside Coq — hundreds of cells in
     # quick, > 8 192 listed faces in thorough — judged by the exact property oracle on the implementation only
     # (a size-dependent fast path in the id look-ups / duplicate removal / sparse products shows up here)
@@ -469,6 +530,7 @@ def signature(case, check):
             'types': sorted(case['blocks']), 'scale': case['meta'].get('scale', '1'),
             'offset': case['meta'].get('offset', '0'), 'dtype': case['meta'].get('dtype'),
             'size': case['meta'].get('size', 'small'),
+            'prelude': case['meta'].get('prelude', '-'), 'mid_prelude': case['meta'].get('mid_prelude', '-'),
             'history': case['meta'].get('same_object', 'single_call')}
 
 
@@ -491,7 +553,7 @@ def shrink(ctx, case, still_fails, budget=8):
         for i, c in enumerate(cands):
             c['id'] = i
         try:
-            res = c10.run_impl(ctx, cands, tag='shrink')
+            res = run_impl(ctx, cands, tag='shrink')
         except Exception:
             break
         nxt = next((c for c in cands if still_fails(c, res[c['id']])), None)
@@ -524,6 +586,8 @@ def main(ctx):
     # translate (T).  A region the translator cannot read is not by itself a violation (BUILDERS_R5 policy):
     # the committed baseline tables become the hand model of that region (tie H), the theorems are checked
     # about them, and the correspondence is widened; only a disagreement / a failing input is a violation.
+    known_q = set(re.findall(r"^    '(\w+)': lambda", (lib.VERIF / 'harness' / 'c12_impl.py').read_text(), re.M))
+    assert known_q == set(PRELUDES), sorted(known_q ^ set(PRELUDES))
     tie_ok = True
     gen_file = lib.COQ / 'C10' / 'gen' / 'FaceTables.v'
     tables_text = None
@@ -590,7 +654,7 @@ def main(ctx):
         c['id'] = i
         c.setdefault('valid', True)
         c['want'] = ['incidence_moved'] if 'move' in c else ['incidence']
-    res = c10.run_impl(ctx, cases)
+    res = run_impl(ctx, cases)
     ctx.log(f'implementation ran on {len(cases)} meshes')
     extra, hist = expand_moved(cases, res)
     cases += extra
@@ -605,6 +669,8 @@ def main(ctx):
         ctx.count('affine:' + str(meta.get('affine')))
         ctx.count('stream:' + ('valid' if c['valid'] else meta.get('malformed', 'invalid')))
         ctx.count('size:' + str(meta.get('size', 'small')))
+        for q in (meta.get('prelude', '-').split('+') + (meta.get('mid_prelude') or '-').split('+')):
+            ctx.count('prelude:' + q)
         if meta.get('single_cell'):
             ctx.count('single_cell_table_probe:' + str(meta.get('kind')))
         inc = res[c['id']].get('incidence')
@@ -660,12 +726,12 @@ def main(ctx):
         def still(cc, rr, chk=chk):
             return any(b[0] == chk for b in judge(cc, rr))
         small = shrink(ctx, c, still)
-        rr = c10.run_impl(ctx, [dict(small, id=0)], tag='shrunk')[0]
+        rr = run_impl(ctx, [dict(small, id=0)], tag='shrunk')[0]
         ob = judge(dict(small, id=0), rr)
         ctx.violation('impl-violation',
                       {'nodes': small['nodes'], 'blocks': small['blocks'], 'meta': c['meta'],
                        'scale': small.get('scale'), 'offset': small.get('offset'), 'dtype': small.get('dtype'),
-                       'move': small.get('move'),
+                       'move': small.get('move'), 'prelude': small.get('prelude'), 'mid_prelude': small.get('mid_prelude'),
                        'moved_nodes': small.get('moved_nodes'), 'moved_blocks': small.get('moved_blocks'),
                        'shrunk_from_elements': sum(len(v) for v in c['blocks'].values())},
                       'each cell incident to exactly its faces; interior facets two cells with opposite signs; '
@@ -682,6 +748,7 @@ def main(ctx):
         ctx.violation('correspondence',
                       {'nodes': c.get('orig_nodes', c['nodes']), 'blocks': c.get('orig_blocks', c['blocks']),
                        'meta': c['meta'], 'scale': c.get('scale'), 'offset': c.get('offset'),
+                       'prelude': c.get('prelude'), 'mid_prelude': c.get('mid_prelude'),
                        'move': c.get('move'), 'moved_blocks': c['blocks'] if c.get('derived') else c.get('moved_blocks'),
                        'moved_nodes': c['nodes'] if c.get('derived') else c.get('moved_nodes')},
                       'model = implementation on ' + what,
@@ -725,14 +792,14 @@ def replay(path):
     ctx = lib.Ctx(PID, 'quick')
     case = {'id': 0, 'nodes': c['nodes'], 'blocks': c['blocks'], 'meta': c.get('meta', {}),
             'want': ['incidence'], 'valid': True}
-    for k in ('scale', 'offset', 'dtype'):
+    for k in ('scale', 'offset', 'dtype', 'prelude', 'mid_prelude'):
         if c.get(k):
             case[k] = c[k]
     if c.get('move'):
         case.update(move=c['move'], moved_nodes=c['moved_nodes'], want=['incidence_moved'])
         if c.get('moved_blocks'):
             case['moved_blocks'] = c['moved_blocks']
-    r = c10.run_impl(ctx, [case], tag='replay')[0]
+    r = run_impl(ctx, [case], tag='replay')[0]
     bad = judge(case, r)
     print('implementation:', json.dumps(r.get('incidence') or r.get('incidence_moved'))[:1500])
     print('oracle:', bad)
